@@ -49,6 +49,11 @@ pub enum Step {
 pub struct Case {
     pub circuits: Vec<Circ>,
     pub steps: Vec<Step>,
+    /// pad every circuit of the pool to the same constraint count and give
+    /// all of them the first circuit's label (state keyed by label and size
+    /// only would then confuse them)
+    #[serde(default)]
+    pub same_size_and_label: bool,
 }
 
 /// ops whose emitted constants do not depend on witness values in solve mode
@@ -137,7 +142,7 @@ pub fn case_strategy(_t: Tier) -> BoxedStrategy<Case> {
                     circuits[1].label = label;
                 }
             }
-            Case { circuits, steps }
+            Case { circuits, steps, same_size_and_label: twin >= 4 }
         })
         .boxed()
 }
@@ -206,7 +211,26 @@ pub fn check(ctx: &Ctx, c: &Case) -> PResult {
     // -- build and compile the pool
     let mut keys: Vec<Key> = Vec::new();
     let mut programs: Vec<Vec<Op>> = Vec::new();
-    for (i, circ) in c.circuits.iter().enumerate() {
+    // optional equalisation: same label, same constraint count
+    let mut pool: Vec<Circ> = c.circuits.clone();
+    if c.same_size_and_label && pool.len() >= 2 {
+        let mut sizes = Vec::new();
+        for circ in &pool {
+            let (composer, _) = no_panic("honest-build-panic", || prog::build(&Program::solved(circ.ops.clone())))?
+                .map_err(|e| Fail::new("honest-build-error", format!("{e:?}")))?;
+            sizes.push(composer.constraints());
+        }
+        let max = *sizes.iter().max().unwrap();
+        let label = pool[0].label.clone();
+        for (circ, n) in pool.iter_mut().zip(&sizes) {
+            if max > *n {
+                circ.ops.push(Op::Pad((max - n) as u16));
+            }
+            circ.label = label.clone();
+        }
+        ctx.label("session: pool with one label and one constraint count");
+    }
+    for (i, circ) in pool.iter().enumerate() {
         let program = Arc::new(Program::solved(circ.ops.clone()));
         let (composer, _) = no_panic("honest-build-panic", || prog::build(&program))?
             .map_err(|e| Fail::new("honest-build-error", format!("{e:?}")))?;
@@ -280,8 +304,19 @@ pub fn check(ctx: &Ctx, c: &Case) -> PResult {
                 let ci = *ci as usize % nk;
                 let same_statement = keys[ci].stmt == keys[m.circuit].stmt;
                 let proof = dusk_plonk::prelude::Proof::from_bytes(&m.bytes).map_err(|e| Fail::new("proof-bytes-roundtrip", format!("{e:?}")))?;
+                let rv = crate::refver::RefVerifier::parse(&keys[ci].verifier.to_bytes()).map_err(|e| Fail::new("refver-parse", e))?;
+                let rp = crate::refver::RefProof::parse(&m.bytes).map_err(|e| Fail::new("refver-parse", e))?;
                 for version in [PlonkVersion::V3, PlonkVersion::V2] {
                     let r = no_panic("verify-panic", || keys[ci].verifier.verify_with_version(&proof, &m.pi, version))?;
+                    // the protocol's own transcript and equation, independent of
+                    // anything the process did before
+                    let reference = crate::refver::verify(&rv, &rp, &m.pi, crate::refver::version_of(version)).accept;
+                    ensure!(
+                        r.is_ok() == reference,
+                        if r.is_ok() { "impl-accepts-reference-rejects" } else { "impl-rejects-reference-accepts" },
+                        "step {si}: verifier {ci} on the proof of session circuit {} under {version:?}: implementation says {} but the protocol equation says {} (history-dependent state?)",
+                        m.circuit, r.is_ok(), reference
+                    );
                     let expect = same_statement && (m.legacy == (version == PlonkVersion::V2));
                     if expect {
                         r.map_err(|e| Fail::new(
